@@ -182,6 +182,8 @@ def app_from(ns, r, marks=None):
                     return tuple(chunks)
                 if shape == "generator":
                     return make_iter("wsgi", chunks, r.get("raise_at"), marks)
+                if shape == "plain-iterator":
+                    return PlainIterator(chunks, r.get("raise_at"))  # an iterator without close() (like map() or iter())
                 return ClosingIterable(chunks, marks)
         else:
             async def app(scope, receive, send):
@@ -197,10 +199,15 @@ def app_from(ns, r, marks=None):
                 if shape in ("list", "tuple") and r.get("one_event", True):
                     await send({"type": "http.response.body", "body": b"".join(chunks)})
                 else:
+                    buf = bytearray()
                     for i, c in enumerate(chunks):
                         if r.get("raise_at") == i:
                             raise BodyError("producer failed")
-                        await send({"type": "http.response.body", "body": c, "more_body": True})
+                        if r.get("reuse_buffer"):
+                            buf[:] = c  # a readinto()-style loop: one buffer object, refilled for every message
+                            await send({"type": "http.response.body", "body": buf, "more_body": True})
+                        else:
+                            await send({"type": "http.response.body", "body": c, "more_body": True})
                     if r.get("raise_at") is not None and r["raise_at"] >= len(chunks):
                         raise BodyError("producer failed")
                     if r.get("minimal_last"):
@@ -209,6 +216,23 @@ def app_from(ns, r, marks=None):
                         await send({"type": "http.response.body", "body": b"", "more_body": False})
         return app
     raise ValueError(kind)
+
+
+class PlainIterator:
+    def __init__(self, chunks, raise_at=None):
+        self.chunks, self.raise_at, self.i = list(chunks), raise_at, 0
+
+    def __iter__(self):
+        return self
+
+    def __next__(self):
+        if self.raise_at == self.i:
+            self.raise_at = None
+            raise BodyError("producer failed")
+        if self.i >= len(self.chunks):
+            raise StopIteration
+        self.i += 1
+        return self.chunks[self.i - 1]
 
 
 class ClosingIterable:
@@ -316,10 +340,11 @@ def gen_raw(rng):
     n = rng.choice([0, 1, 2, 3])
     hdrs = rng.choice([[], [("Content-Type", "text/plain")], [("Set-Cookie", "a=1"), ("Set-Cookie", "b=2")],
                        [("X-A", "1"), ("X-A", "2"), ("x-b", "3")], [("X-Hop", "1"), ("X-Hop", "1")], [("Set-Cookie", "n=caf\xe9; Path=/"), ("Vary", "Accept")],
-                       [("Set-Cookie", "a=\xfc"), ("Set-Cookie", "b=2"), ("vary", "Cookie")], [("Vary", "Accept"), ("Vary", "Accept"), ("Vary", "Origin")], [("Content-Type", "text/plain"), ("Set-Cookie", "a=1; Path=/"), ("Set-Cookie", "b=2; HttpOnly")]])
+                       [("Set-Cookie", "a=\xfc"), ("Set-Cookie", "b=2"), ("vary", "Cookie")], [("Vary", "Accept"), ("Vary", "Accept"), ("Vary", "Origin")], [("Content-Type", "text/plain"), ("Set-Cookie", "a=1; Path=/"), ("Set-Cookie", "b=2; HttpOnly")],
+                       [("X-Tag", ""), ("X-Tag", "b")], [("X-Tag", "a"), ("X-Tag", ""), ("X-Empty", "")]])
     return {"app": "raw", "status": rng.choice([200, 201, 404, 418, 599]), "headers": hdrs,
             "chunks": [rng.choice([b"hello", b"world", b"", b"\x00\xff"]) for _ in range(n)],
-            "shape": rng.choice(["list", "tuple", "generator", "closing"]), "one_event": rng.random() < 0.5, "minimal_last": rng.random() < 0.3,
+            "shape": rng.choice(["list", "tuple", "generator", "closing", "plain-iterator"]), "reuse_buffer": rng.random() < 0.2, "one_event": rng.random() < 0.5, "minimal_last": rng.random() < 0.3,
             "restart": rng.random() < 0.15, "headers_as_iterator": rng.random() < 0.3}
 
 
